@@ -29,6 +29,13 @@ type strV struct {
 	s      string
 	opaque bool
 	ite    *strIte // symbolic choice between two concrete strings
+	sym    []symPart // symbolic string: concatenation of literals and decimal renderings of integers
+}
+
+// symPart is a literal piece or the canonical decimal rendering of a signed 64-bit term.
+type symPart struct {
+	lit string
+	num *Term
 }
 
 type strIte struct {
@@ -253,10 +260,10 @@ func (ex *Exec) iteVal(c *Term, a, b Value) (Value, bool) {
 		return ex.tc.Ite(c, x, y), true
 	case strV:
 		y, ok := b.(strV)
-		if ok && x == y {
+		if ok && x.sym == nil && y.sym == nil && x.s == y.s && x.opaque == y.opaque && x.ite == y.ite {
 			return x, true
 		}
-		if ok && !x.opaque && !y.opaque && x.ite == nil && y.ite == nil {
+		if ok && x.sym == nil && y.sym == nil && !x.opaque && !y.opaque && x.ite == nil && y.ite == nil {
 			return strV{ite: &strIte{c: c, a: x.s, b: y.s}}, true
 		}
 		return nil, false
@@ -358,6 +365,9 @@ func (ex *Exec) eqVal(a, b Value) *Term {
 		}
 		if x.opaque || y.opaque {
 			panic(unsupported("comparison of opaque string"))
+		}
+		if x.sym != nil || y.sym != nil {
+			return ex.eqSymStr(x, y)
 		}
 		if x.ite != nil || y.ite != nil {
 			xa, xb, xc := x.s, x.s, tc.tt
